@@ -119,6 +119,13 @@ Theorem c07_sample_index_needs_the_hypothesis :
 Proof. exact sample_index_outside. Qed.
 Print Assumptions c07_sample_index_needs_the_hypothesis.
 
+(** ClockRecovery::update() (no sync word): csw = fmod(sample_estimate_ + clock_estimate_ * count_, 10), +10 if negative, -10 if >= 10,
+    then the same post-processing.  In EXACT arithmetic the index is in 0..9 for every finite argument; the rounding of the float
+    sum / fmod is modelled, not verified (a float csw is still in [0, 10], which is the hypothesis of c07_sample_index_in_range). *)
+Theorem c07_sample_index_update_exact : forall x : Q, exists s, sample_index_update0 x = Some s /\ (0 <= s <= 9)%Z.
+Proof. exact sample_index_update0_range. Qed.
+Print Assumptions c07_sample_index_update_exact.
+
 (** non-vacuity: a concrete history (an LSF of a RAW packet transmission, two packet segments, an EOF segment of
     length 0, a stream frame with the EOS bit, a BERT frame) runs to Ok with both flags set *)
 Definition ex_codec (c : unit) (bits : list N) : unit * list Z := (tt, repeat 0%Z da_buf_samples).
